@@ -104,6 +104,8 @@ pub struct World {
   pub remote: BTreeMap<String, Resp>,
   /// what the cache-only probe serves (CacheSetting::Only)
   pub cache: BTreeMap<String, Resp>,
+  /// overrides for cache-busting loads (CacheSetting::Reload); falls back to `remote`
+  pub reload: BTreeMap<String, Resp>,
 }
 
 impl World {
@@ -288,11 +290,16 @@ impl<'w> ScriptedLoader<'w> {
       ensure_cached: ensure,
       occurrence: occ,
     };
-    let table = match options.cache_setting {
-      CacheSetting::Only => &self.world.cache,
-      _ => &self.world.remote,
+    let mut resp: Option<Resp> = match options.cache_setting {
+      CacheSetting::Only => self.world.cache.get(&spec).cloned(),
+      CacheSetting::Reload => self
+        .world
+        .reload
+        .get(&spec)
+        .or_else(|| self.world.remote.get(&spec))
+        .cloned(),
+      CacheSetting::Use => self.world.remote.get(&spec).cloned(),
     };
-    let mut resp: Option<Resp> = table.get(&spec).cloned();
     let mut faulted = false;
     if let Some(f) = self.faults.get(&key) {
       faulted = true;
